@@ -755,6 +755,7 @@ func TestC15(t *testing.T) {
 	// (b)+(c) rapid manifests
 	if !failed {
 		t.Run("manifests", rapid.MakeCheck(func(rt *rapid.T) {
+			noiseCall(rt) // one case in three is preceded by an unrelated, mostly failing call (see noise_test.go)
 			in := c15GenManifest(rt)
 			nt := false
 			cls := []string{}
